@@ -71,7 +71,8 @@ func (s c08shape) program(n int, nonTail bool) string { return s.programVia(n, n
 // route 3: every function is defined in a module of its own (each def read under another module name);
 // route 4: the recursive call form itself is built by a user macro, nested inside its expansion.
 var c08Routes = []string{"fn forms written in the text", "functions defined through a defn-style macro", "program given as an AST without source positions",
-	"every function defined in a module of its own", "recursive call built by a user macro inside its expansion"}
+	"every function defined in a module of its own", "recursive call built by a user macro inside its expansion",
+	"functions with a rest parameter, called with extra arguments", "functions whose only parameter is a rest parameter"}
 
 func (s c08shape) programVia(n int, nonTail bool, route int) string {
 	var sb strings.Builder
@@ -87,6 +88,15 @@ func (s c08shape) programVia(n int, nonTail bool, route int) string {
 		if route == 4 {
 			callee = fmt.Sprintf("(callm f%d (- n 1))", (i+1)%s.funcs)
 		}
+		params, head := "[n]", ""
+		if route == 5 {
+			params = "[n & more]"
+			callee = fmt.Sprintf("(f%d (- n 1) n more)", (i+1)%s.funcs)
+		}
+		if route == 6 {
+			params, head = "[& all]", "(def n (first all)) "
+			callee = fmt.Sprintf("(f%d (- n 1) n)", (i+1)%s.funcs)
+		}
 		if nonTail {
 			callee = "(+ 0 " + callee + ")"
 		}
@@ -98,7 +108,7 @@ func (s c08shape) programVia(n int, nonTail bool, route int) string {
 			fmt.Fprintf(&sb, "(defn0 f%d [n] (depth!) (if (<= n 0) 0 %s)) ", i, body)
 			continue
 		}
-		fmt.Fprintf(&sb, "(def f%d (fn [n] (depth!) (if (<= n 0) 0 %s))) ", i, body)
+		fmt.Fprintf(&sb, "(def f%d (fn %s %s(depth!) (if (<= n 0) 0 %s))) ", i, params, head, body)
 	}
 	fmt.Fprintf(&sb, "(f0 %d))", n)
 	return sb.String()
@@ -161,7 +171,7 @@ func init() {
 		run := func(text string) ([]int, error, *lx.Panic) { return runVia(text, 0) }
 		fam := &vf.Family{
 			Name:     "loop-shapes",
-			Bounds:   "every nesting of depth 0..2 (quick) / 0..3 (thorough) of the 11 tail-position constructs (do-last, let-body-last, let with empty / list-form bindings, if-then, if-else, cond clause, and-last, or-last, fn-body-last, a fully unquoted quasiquote) around the recursive call x {self, 2-way mutual, 3-way mutual recursion} x 5 routes (fn forms written in the text; functions defined through a defn-style macro; whole program as an AST without source positions; every function in a module of its own; the recursive call built by a user macro inside its expansion); iteration counts 3, 5, 50 (host stack depth at every iteration); the plain recursions and every single construct around a self call also run 150 000 iterations to completion (thorough: all shapes of nesting depth <=1, 400 000 iterations), thorough: additionally 20000 iterations under a 1 MiB stack limit",
+			Bounds:   "every nesting of depth 0..2 (quick) / 0..3 (thorough) of the 11 tail-position constructs (do-last, let-body-last, let with empty / list-form bindings, if-then, if-else, cond clause, and-last, or-last, fn-body-last, a fully unquoted quasiquote) around the recursive call x {self, 2-way mutual, 3-way mutual recursion} x 7 routes (fn forms written in the text; functions defined through a defn-style macro; whole program as an AST without source positions; every function in a module of its own; the recursive call built by a user macro inside its expansion; functions with a rest parameter called with extra arguments; functions whose only parameter is a rest parameter); iteration counts 3, 5, 50 (host stack depth at every iteration); the plain recursions and every single construct around a self call also run 150 000 iterations to completion (thorough: all shapes of nesting depth <=1, 400 000 iterations), thorough: additionally 20000 iterations under a 1 MiB stack limit",
 			Setup:    setup,
 			Timeout:  1500e9,
 			N:        func(t string) int64 { tier = t; return int64(len(shapesOf())) },
@@ -177,7 +187,7 @@ func init() {
 					lx.Eval(context.Background(), lx.MustRead("(+ 1 2)"), env.NewSubordinateEnv(base))
 					lisp.Stepper = nil
 				}
-				for _, rn := range []struct{ route, n int }{{0, 3}, {0, 5}, {0, 50}, {1, 5}, {1, 50}, {2, 5}, {2, 50}, {3, 5}, {3, 50}, {4, 5}, {4, 50}} {
+				for _, rn := range []struct{ route, n int }{{0, 3}, {0, 5}, {0, 50}, {1, 5}, {1, 50}, {2, 5}, {2, 50}, {3, 5}, {3, 50}, {4, 5}, {4, 50}, {5, 5}, {5, 50}, {6, 5}, {6, 50}} {
 					n := rn.n
 					d, err, p := runVia(s.programVia(n, false, rn.route), rn.route)
 					r.Exec(1)
